@@ -130,6 +130,11 @@ func tables() []tbl {
 	tb := tbl{name: "bare-binding", where: one("ki"), proj: sv}
 	tb.atoms = []*bqlm.Expr{{Kind: "cmp", Left: "?v"}, {Kind: "cmp", Left: "?s"}, {Kind: "cmp", Left: "?v", Op: "="}, cmp("?v", "=", I(0))}
 	out = append(out, tb)
+	// the whole graph through one clause of three plain bindings (the only pattern whose LIMIT the planner may hand to the
+	// driver: not when a HAVING expression still has to pick the rows)
+	tall := tbl{name: "all", where: []bqlm.Clause{cl(bt("?s"), bt("?p"), bt("?v"))}, proj: []bqlm.Proj{pj("?s"), pj("?p"), pj("?v")}}
+	tall.atoms = []*bqlm.Expr{cmp("?s", "=", N("/u", "n1")), cmp("?s", "=", N("/u", "n5")), cmp("?v", "=", N("/t", "a")), cmp("?v", "=", B("?s")), cmp("?s", "=", B("?s")), cmp("?s", "=", N("/u", "zz"))}
+	out = append(out, tall)
 	// applied after grouping: aggregate outputs
 	ta := tbl{name: "aggregate", where: one("kn"), proj: []bqlm.Proj{pj("?v"), {Binding: "?s", Op: "count", Alias: "?c"}}, group: []string{"?v"}}
 	for _, op := range ops {
@@ -253,6 +258,67 @@ func check(t tbl, e *bqlm.Expr, data []*triple.Triple) verdict {
 	return v
 }
 
+// checkLimit: HAVING picks the rows, LIMIT k then keeps k of them: the answer has min(k, kept) rows, each one a kept row
+// (which ones is not specified without ORDER BY).
+func checkLimit(t tbl, e *bqlm.Expr, k int, data []*triple.Triple) verdict {
+	q := &bqlm.Query{From: []string{"?g"}, Where: t.where, Proj: t.proj, GroupBy: t.group, Having: e.Render()}
+	v := verdict{class: t.name + ":with-limit"}
+	full, err := bqlm.EvalRows(q, data)
+	if err != nil {
+		common.Machinery("reference evaluator: %v", err)
+	}
+	cols := q.OutCols()
+	var want []bqlm.ORow
+	for _, r := range full {
+		row := map[string]bqlm.Val{}
+		for i, c := range cols {
+			row[c] = r[i]
+		}
+		if keep, _ := e.Eval(row); keep {
+			want = append(want, r)
+		}
+	}
+	wk := bqlm.KeysOfRows(want, cols)
+	st := bqlm.NewStore(map[string][]*triple.Triple{"?g": data})
+	if res := bqlm.Exec(st, q.Render(), 0, 0, cols); res.Stage != "" {
+		v.ok, v.rejected, v.outcome = true, true, "not-accepted-without-limit" // judged by the pass without LIMIT
+		return v
+	}
+	q.Limit = fmt.Sprintf("%q^^type:int64", fmt.Sprint(k))
+	text := q.Render()
+	res := bqlm.Exec(st, text, 0, 0, cols)
+	if res.Stage != "" {
+		v.shape = "fails-with-limit:" + res.Stage
+		v.detail = fmt.Sprintf("%s\n accepted without LIMIT; with it: %s %s", text, res.Stage, res.Err)
+		return v
+	}
+	n := len(wk)
+	if k < n {
+		n = k
+	}
+	got := res.Sorted()
+	v.outcome = fmt.Sprintf("limit-kept=%d/%d", len(got), len(wk))
+	left := map[string]int{}
+	for _, w := range wk {
+		left[w]++
+	}
+	for _, g := range got {
+		if left[g] == 0 {
+			v.shape = "row-under-limit-is-not-a-kept-row"
+			v.detail = fmt.Sprintf("%s\n kept rows (%d): %v\n got: %v", text, len(wk), wk, got)
+			return v
+		}
+		left[g]--
+	}
+	if len(got) != n {
+		v.shape = "wrong-number-of-rows-under-limit"
+		v.detail = fmt.Sprintf("%s\n the expression keeps %d rows, LIMIT %d must return %d of them; got %d: %v", text, len(wk), k, n, len(got), got)
+		return v
+	}
+	v.ok = true
+	return v
+}
+
 func short(e string) string {
 	for _, cut := range []string{"a string binding can only be compared", "accepts only the \"=\" operation", "could not parse"} {
 		if strings.Contains(e, cut) {
@@ -341,6 +407,39 @@ func main() {
 			}
 		})
 	}
+	// HAVING under LIMIT: every atom of every table x limits 0..3 and one beyond the table
+	r.Replayer("having-limit", func(raw json.RawMessage) (bool, string) {
+		var k kase
+		json.Unmarshal(raw, &k)
+		var ti, ei, lim int
+		fmt.Sscanf(k.Gen, "limit:%d:%d:%d", &ti, &ei, &lim)
+		v := checkLimit(ts[ti], ts[ti].atoms[ei], lim, data)
+		return v.ok, v.detail
+	})
+	type ljob struct{ ti, ei, k int }
+	var ljobs []ljob
+	for ti, t := range ts {
+		for ei := range t.atoms {
+			for _, k := range []int{0, 1, 2, 3, 40} {
+				ljobs = append(ljobs, ljob{ti, ei, k})
+			}
+		}
+	}
+	var limitEvals int64
+	common.ParallelFor(len(ljobs), func(i int) {
+		j := ljobs[i]
+		if r.OutOfTime() {
+			return
+		}
+		v := checkLimit(ts[j.ti], ts[j.ti].atoms[j.ei], j.k, data)
+		atomic.AddInt64(&limitEvals, 1)
+		if !v.ok {
+			q := &bqlm.Query{From: []string{"?g"}, Where: ts[j.ti].where, Proj: ts[j.ti].proj, GroupBy: ts[j.ti].group, Having: ts[j.ti].atoms[j.ei].Render()}
+			r.Fail(common.Failure{Check: "having-limit", Class: v.class, Shape: v.shape, Case: kase{q.Render(), fmt.Sprintf("limit:%d:%d:%d", j.ti, j.ei, j.k)}, Detail: v.detail})
+		}
+	})
+	evals += limitEvals
+	r.Set("having_under_limit_evaluations", int(limitEvals))
 	// documented forms must stay accepted
 	docs := []string{
 		`?v > "10"^^type:int64`,
